@@ -125,3 +125,79 @@ Proof.
   destruct s as [|c r]; [reflexivity|]. cbn [starts_with]. cbn [existsb] in B. apply orb_false_iff in B as [B _].
   rewrite N.eqb_sym. change QUOTE with 39 in B. rewrite B. reflexivity.
 Qed.
+
+(* ------------------------------------------------------------------ the PROPOSED repair for BigQuery (fixes/F6c-*.diff):
+   backslashes doubled, quotes written backslash-quote.  Not what prqlc does today; kept here so that the full-strength
+   statement is ready when the repair is adopted. *)
+
+(* sqlparser's Display leaves the prepared text alone: a quote that follows a backslash is printed once *)
+Lemma esc_prep_bq : forall s prev, esc QUOTE prev (prep_literal_bq s) = prep_literal_bq s.
+Proof.
+  unfold QUOTE. induction s as [|c r IH]; intro prev; [reflexivity|].
+  cbn [prep_literal_bq]. unfold BSLASH, QUOTE. destruct (c =? 92) eqn:Eb.
+  - cbn [esc]. replace (92 =? 39) with false by reflexivity. cbn [esc]. replace (92 =? 39) with false by reflexivity.
+    rewrite IH. reflexivity.
+  - destruct (c =? 39) eqn:Eq.
+    + cbn [esc]. replace (92 =? 39) with false by reflexivity. replace (39 =? 39) with true by reflexivity.
+      unfold BSLASH. replace (92 =? 92) with true by reflexivity. rewrite IH. reflexivity.
+    + cbn [esc]. rewrite Eq. rewrite IH. reflexivity.
+Qed.
+
+Lemma emit_literal_string_bq_eq s : emit_literal_string_bq s = QUOTE :: prep_literal_bq s ++ [QUOTE].
+Proof. unfold emit_literal_string_bq, emit_string. rewrite esc_prep_bq. reflexivity. Qed.
+
+Lemma bq_body_repaired dq : forall s acc rest,
+  bq_run dq (BS1 acc) (prep_literal_bq s ++ rest) = bq_run dq (BS1 (rev s ++ acc)) rest.
+Proof.
+  induction s as [|c r IH]; intros acc rest; [reflexivity|].
+  cbn [prep_literal_bq]. unfold BSLASH, QUOTE. destruct (c =? 92) eqn:Eb.
+  - apply N.eqb_eq in Eb. subst c. cbn [app]. cbn [bq_run bq_step]. unfold s1_step.
+    replace (92 =? 39) with false by reflexivity. replace (92 =? 92) with true by reflexivity. cbn [app].
+    cbn [bq_run bq_step]. replace (bs_decode bs_sql 92) with [92] by reflexivity. cbn [app].
+    rewrite IH. cbn [rev]. rewrite <- app_assoc. reflexivity.
+  - destruct (c =? 39) eqn:Eq.
+    + apply N.eqb_eq in Eq. subst c. cbn [app]. cbn [bq_run bq_step]. unfold s1_step.
+      replace (92 =? 39) with false by reflexivity. replace (92 =? 92) with true by reflexivity. cbn [app].
+      cbn [bq_run bq_step]. replace (bs_decode bs_sql 39) with [39] by reflexivity. cbn [app].
+      rewrite IH. cbn [rev]. rewrite <- app_assoc. reflexivity.
+    + cbn [app]. cbn [bq_run bq_step]. unfold s1_step. rewrite Eq, Eb. cbn [app].
+      rewrite IH. cbn [rev]. rewrite <- app_assoc. reflexivity.
+Qed.
+
+(* the prepared text never starts with a quote, so the opening quote is never the first of three *)
+Lemma bq_open1_repaired dq s rest : s <> [] ->
+  bq_run dq BOpen1 (prep_literal_bq s ++ rest) = bq_run dq (BS1 []) (prep_literal_bq s ++ rest).
+Proof.
+  destruct s as [|c r]; [congruence|]. intros _. cbn [prep_literal_bq]. unfold BSLASH, QUOTE.
+  destruct (c =? 92); [|destruct (c =? 39) eqn:Eq]; cbn [app bq_run bq_step];
+    try (replace (92 =? 39) with false by reflexivity); try rewrite Eq; reflexivity.
+Qed.
+
+Theorem bq_repaired_in_context dq s pre suf :
+  bq_closed_prefix dq pre = true -> starts_with 39 suf = false ->
+  bq_lex dq (pre ++ emit_literal_string_bq s ++ suf) = bq_lex dq pre ++ TString s :: bq_lex dq suf.
+Proof.
+  intros Hp Hs. rewrite emit_literal_string_bq_eq.
+  rewrite (bq_lex_closed_prefix dq pre Hp). unfold bq_lex at 1. rewrite bq_run_app.
+  unfold bq_closed_prefix in Hp. destruct (bq_state_after dq (BBase L0) pre) as [st| | | | | | |]; try discriminate.
+  destruct st; try discriminate. f_equal. unfold QUOTE.
+  change ((39 :: prep_literal_bq s ++ [39]) ++ suf) with (39 :: (prep_literal_bq s ++ [39]) ++ suf). rewrite <- app_assoc.
+  cbn [bq_run]. change (bq_step dq (BBase L0) 39) with (base_step L0 39). rewrite base_step_quote. cbn [app].
+  destruct s as [|c r].
+  - cbn [prep_literal_bq app]. cbn [bq_run bq_step]. replace (39 =? 39) with true by reflexivity. cbn [app].
+    rewrite (bq_after_string dq BOpen2 suf Hs); [reflexivity | | eexists; reflexivity].
+    intros c Hc. cbn [bq_step]. rewrite Hc. reflexivity.
+  - rewrite bq_open1_repaired by discriminate. rewrite bq_body_repaired. rewrite app_nil_r.
+    cbn [app bq_run bq_step]. unfold s1_step. replace (39 =? 39) with true by reflexivity. cbn [app].
+    rewrite (bq_after_string dq (BS1Q (rev (c :: r))) suf Hs).
+    + cbn [bq_finish app]. rewrite rev_involutive. reflexivity.
+    + intros x Hx. cbn [bq_step bq_finish]. rewrite Hx. reflexivity.
+    + eexists; reflexivity.
+Qed.
+
+(* FULL STRENGTH for BigQuery under the proposed emission, both descriptions of its syntax: EVERY string *)
+Theorem bq_repaired_roundtrip dq s : bq_lex dq (emit_literal_string_bq s) = [TString s].
+Proof.
+  pose proof (bq_repaired_in_context dq s [] [] eq_refl eq_refl) as E.
+  cbn [app] in E. rewrite app_nil_r in E. exact E.
+Qed.
